@@ -34,7 +34,11 @@ def _evaluate(args):
         src = open(path, encoding="utf-8").read()
     except OSError:
         return name, kind, "n/a", "file missing"
-    if src.count(old) != 1:
+    if name.endswith("*"):
+        # replace-all variant (e.g. a local rename)
+        if src.count(old) < 1:
+            return name, kind, "n/a", "anchor text does not occur"
+    elif src.count(old) != 1:
         return name, kind, "n/a", f"anchor text occurs {src.count(old)} times"
     new_src = src.replace(old, new)
     try:
